@@ -17,7 +17,7 @@ def rand_op(r):
     if k <= 2: return '(add %s %d)' % (S(r.choice(IDS)), r.randrange(NPOOL))
     if k == 3: return '(remove %s)' % S(r.choice(IDS))
     if k == 4: return '(get %s)' % S(r.choice(IDS))
-    if k == 5: return '(all)' if r.random() < 0.5 else '(snap)'
+    if k == 5: return r.choice(['(all)', '(snap)', '(iterrm %s)' % S(r.choice(IDS))])
     if k == 6: return '(mapmut %s %d)' % (S(r.choice(IDS)), r.randrange(NPOOL))
     if k == 7: return '(cedar)'
     if k == 8: return '(json)'
@@ -36,7 +36,7 @@ def run(ctx):
     # exhaustive short histories over a small alphabet, each followed by the observers
     alpha = ['(add %s 0)' % S('p'), '(add %s 1)' % S('p'), '(add %s 2)' % S('q'), '(remove %s)' % S('p'), '(remove %s)' % S('q'),
              '(json)', '(cedarrt)', '(fromdoc 3 0)', '(mapmut %s 4)' % S('p'), '(loadjson (%s 5))' % S('q'), '(loadjson)',
-             '(add %s 0)' % S('q'), '(snap)']      # the SAME policy object under a second id; a copy of the set that must stay as it was
+             '(add %s 0)' % S('q'), '(snap)', '(iterrm %s)' % S('q')]      # the SAME policy object under a second id; a copy of the set that must stay as it was
     obs = '(get %s) (get %s) (all) (cedar) (authz)' % (S('p'), S('q'))
     maxlen = 3 if ctx.tier == 'quick' else 4
     for ln in range(0, maxlen + 1):
@@ -48,7 +48,7 @@ def run(ctx):
         ops = [rand_op(r) for _ in range(r.randrange(1, 25))]
         cases.append('(case h%d pshist (ops %s))' % (n, ' '.join(ops)))
     ctx.rule = ('all histories of <=%d operations over {add/replace p,q; remove p,q; JSON round trip; Cedar text reload; load document; UnmarshalJSON into the live set; '
-                'mutate a Map() copy; store one policy object under two ids; keep a copy of the set}, each followed by get/all/marshal/authorize, plus random histories of 1-24 operations over 7 ids '
+                'mutate a Map() copy; store one policy object under two ids; keep a copy of the set; remove not-yet-reached entries while ranging over All()}, each followed by get/all/marshal/authorize, plus random histories of 1-24 operations over 7 ids '
                 '(incl. policy10 vs policy2 and the empty id) and a pool of 6 policies; every operation result compared; '
                 'non-trivial = the history contains at least one mutation' % maxlen)
     ctx.exhaustive = True
